@@ -11,12 +11,12 @@ Local Open Scope Z_scope.
 Definition i32 (z : Z) : Prop := -2147483648 <= z <= 2147483647.
 
 (* ------------------------------------------------------------------ a struct in memory *)
-Lemma load_cell m b (blk : block) i v z : nth_error m b = Some blk -> nth_error blk i = Some v -> z = Z.of_nat i ->
+Lemma fld_load m b (blk : block) i v z : nth_error m b = Some blk -> nth_error blk i = Some v -> z = Z.of_nat i ->
   load m b z = Ok v.
 Proof.
   intros Hm Hi ->. unfold load. rewrite Hm. destruct (Z.ltb_spec (Z.of_nat i) 0); [lia|]. rewrite Nat2Z.id, Hi. reflexivity.
 Qed.
-Lemma store_cell m b (blk : block) i v z : nth_error m b = Some blk -> (i < length blk)%nat -> z = Z.of_nat i ->
+Lemma fld_store m b (blk : block) i v z : nth_error m b = Some blk -> (i < length blk)%nat -> z = Z.of_nat i ->
   store m b z v = Ok (upd m b (upd blk i v)).
 Proof. intros Hm Hi ->. rewrite (store_ok m b blk) by (try assumption; lia). rewrite Nat2Z.id. reflexivity. Qed.
 
@@ -29,7 +29,7 @@ Definition L_hist_sz : nat := 70.  Definition L_hist_n : nat := 71.   Definition
 Definition L_useq_zero : nat := 73. Definition L_useq_last : nat := 74.
 Definition O_seq : nat := 6.       (* struct lopt: ins 0, del 1, pos 2, n_ins 3, n_del 4, pos_off 5, seq 6, mark 7, mark_off 8 *)
 
-Ltac xfld Hb H := match goal with |- context [load ?m ?b ?z] => rewrite (load_cell m b _ _ _ z Hb H eq_refl) end; xstep.
+Ltac xfld Hb H := match goal with |- context [load ?m ?b ?z] => rewrite (fld_load m b _ _ _ z Hb H eq_refl) end; xstep.
 Ltac fld_len := match goal with Hl : length ?b = LBUF_CELLS |- context [length ?b] => rewrite Hl end;
   unfold LBUF_CELLS, L_ln, L_ln_glob, L_ln_n, L_ln_sz, L_useq, L_hist, L_hist_sz, L_hist_n, L_hist_u, L_useq_zero, L_useq_last; lia.
 Ltac fld_ne := unfold L_ln, L_ln_glob, L_ln_n, L_ln_sz, L_useq, L_hist, L_hist_sz, L_hist_n, L_hist_u, L_useq_zero, L_useq_last; lia.
@@ -37,9 +37,9 @@ Ltac fld_after :=
   first [ rewrite nth_error_upd_same by fld_len; reflexivity
         | rewrite nth_error_upd_other by (first [fld_len | fld_ne]); assumption ].
 
-Lemma store_same m b (blk : block) i v z : nth_error m b = Some blk -> nth_error blk i = Some v -> z = Z.of_nat i -> store m b z v = Ok m.
+Lemma fld_store_same m b (blk : block) i v z : nth_error m b = Some blk -> nth_error blk i = Some v -> z = Z.of_nat i -> store m b z v = Ok m.
 Proof.
-  intros Hm Hi Hz. rewrite (store_cell m b blk i v z Hm) by (try assumption; apply nth_error_Some; congruence).
+  intros Hm Hi Hz. rewrite (fld_store m b blk i v z Hm) by (try assumption; apply nth_error_Some; congruence).
   f_equal. rewrite (upd_self blk i v Hi). apply upd_self. exact Hm.
 Qed.
 Ltac xpos := match goal with |- context [0 + 1 * Z.of_nat ?p] => replace (0 + 1 * Z.of_nat p) with (Z.of_nat p) by lia end.
